@@ -818,7 +818,74 @@ func c05EnvIsolation(n int) core.Result {
 	return core.Okay(true, oa+ob)
 }
 
+// c05RangeIn: membership in ranges of every length up to 45 (and 100, 1000): numbers inside and outside, numeric and
+// non-numeric strings.
+func c05RangeIn(lo, n, ni int) core.Result {
+	hi := lo + n - 1
+	needles := []struct {
+		src string
+		num float64
+		isN bool
+	}{{"0", 0, true}, {"5", 5, true}, {itoa(hi), float64(hi), true}, {itoa(hi + 1), float64(hi + 1), true}, {itoa(lo - 1), float64(lo - 1), true}, {"2.5", 2.5, true},
+		{"'abc'", 0, false}, {"''", 0, false}, {"'n/a'", 0, false}, {"'3'", 3, true}, {"'0'", 0, true}, {"'-1'", -1, true}}
+	nd := needles[ni]
+	in := nd.isN && nd.num == math.Trunc(nd.num) && nd.num >= float64(lo) && nd.num <= float64(hi)
+	src := "{{ " + nd.src + " in (" + itoa(lo) + ".." + itoa(hi) + ") ? 'y' : 'n' }}{{ " + nd.src + " not in (" + itoa(lo) + ".." + itoa(hi) + ") ? 'y' : 'n' }}"
+	if n == 0 {
+		return core.Skipped("empty-range")
+	}
+	want := "ny"
+	if in {
+		want = "yn"
+	}
+	out, err, pan := tryExec(stick.New(nil), src, nil)
+	if pan != "" || err != nil {
+		return core.Violation("error", fmt.Sprintf("%q: %v %s", src, err, pan))
+	}
+	if out != want {
+		return core.Violation("value", fmt.Sprintf("%q renders %q, the documented value is %q", src, out, want))
+	}
+	return core.Okay(true, out)
+}
+
+// c05PatternChurn: the result of 'matches' does not depend on how many other patterns the process has used since the
+// pattern was first seen.
+func c05PatternChurn(round int) core.Result {
+	env := stick.New(nil)
+	probe := func(tag string) (string, string) {
+		src := "{{ '/admin/users' matches '^/admin(/|$|" + tag + ")' ? 'y' : 'n' }}{{ 'x" + tag + "' matches '^x" + tag + "$' ? 'y' : 'n' }}{{ 'ab' matches 'a(" + tag + ")?b' ? 'y' : 'n' }}{{ 'zz' matches '^q" + tag + "' ? 'y' : 'n' }}"
+		out, err, pan := tryExec(env, src, nil)
+		if err != nil {
+			out += " ERR " + err.Error()
+		}
+		return out + pan, src
+	}
+	tag := "r" + itoa(round)
+	first, src := probe(tag)
+	if first != "yyyn" {
+		return core.Violation("value", fmt.Sprintf("%q renders %q, want yyyn", src, first))
+	}
+	for _, churn := range []int{10, 100, 127, 128, 129, 300, 1100} {
+		for i := 0; i < churn; i++ {
+			tryExec(env, "{{ 'k' matches '^other"+tag+"_"+itoa(churn)+"_"+itoa(i)+"$' }}", nil)
+		}
+		if again, _ := probe(tag); again != first {
+			return core.Violation("value", fmt.Sprintf("%q rendered %q, and %q after %d other patterns had been used in the process", src, first, again, churn))
+		}
+		if fresh, _ := probe(tag + "f" + itoa(churn)); fresh != "yyyn" {
+			return core.Violation("value", fmt.Sprintf("new patterns after %d others render %q, want yyyn", churn, fresh))
+		}
+	}
+	return core.Okay(true, first)
+}
+
 func c05Run(c core.Case) core.Result {
+	if c.Fam == "rangein" {
+		return c05RangeIn(c.N[0], c.N[1], c.N[2])
+	}
+	if c.Fam == "churn" {
+		return c05PatternChurn(c.N[0])
+	}
 	if c.Fam == "numlit" {
 		return c05NumLit(c.N[0])
 	}
@@ -900,6 +967,22 @@ func c05Levels(tier string) []core.Level {
 			}
 			for n := 0; n < 24; n++ {
 				emit(core.Case{Fam: "envs", N: []int{n}})
+			}
+		}},
+		{Name: "size and history: 12 needles in ranges of every length 1..45, 100 and 1000 from 4 lower bounds; 'matches' re-evaluated after 10..1100 other patterns were used in the process", Gen: func(emit func(core.Case)) {
+			lens := []int{100, 1000}
+			for n := 1; n <= 45; n++ {
+				lens = append(lens, n)
+			}
+			for _, lo := range []int{-50, 0, 1, 3} {
+				for _, n := range lens {
+					for ni := 0; ni < 12; ni++ {
+						emit(core.Case{Fam: "rangein", N: []int{lo, n, ni}})
+					}
+				}
+			}
+			for r := 0; r < 16; r++ {
+				emit(core.Case{Fam: "churn", N: []int{r}})
 			}
 		}},
 		{Name: "every operand alone (20 values as literal and as variable), every unary operator on it, array/hash literal and access forms", Gen: func(emit func(core.Case)) {
